@@ -18,7 +18,7 @@ TU = """#define FFSM2_ENABLE_PLANS
 #include <%s>
 """
 # records whose scalar members must all be initialised for a machine to be a function of its history only
-RECORDS = ["TaskStatus", "Registry", "TransitionBase", "TransitionT", "TaskBase", "TaskT", "TaskLink", "Bounds", "TaskListT", "PlanDataT", "CoreT", "BitArrayT", "StaticArrayT"]
+RECORDS = ["TaskStatus", "Registry", "TransitionBase", "TransitionT", "TaskBase", "TaskT", "TaskLink", "Bounds", "TaskListT", "PlanDataT", "CoreT", "BitArrayT", "StaticArrayT", "StreamBufferT"]
 # members that are deliberately left indeterminate (guarded by a flag) or initialised in the constructor body
 EXEMPT = {
     ("TransitionT", "storage"): "payload bytes: read only when payloadSet",
@@ -48,7 +48,7 @@ def dump(record, header, incdir):
         except Exception as e: return None, repr(e)
 
 SCALARS = {"bool", "char", "int", "unsigned", "StateID", "Long", "Short", "Prong", "Index", "Unit", "uint8_t", "uint16_t", "uint32_t", "uint64_t",
-           "Method", "TransitionType", "Result", "Storage"}
+           "Method", "TransitionType", "Result", "Storage", "Data"}
 def is_scalar(ty):
     """builtin / enum / pointer members (and arrays of them): the ones an omitted initialiser leaves indeterminate"""
     q = (ty.get("qualType") or "").replace("const ", "").strip()
